@@ -28,13 +28,20 @@
    scheduler selected, exactly one step of the single-connection line of (6); the other connections are untouched and the other
    stations ignore the frame (parse_su on a frame for another address).  Hence for EVERY slave whose connection has not been
    reported in error the exactly-once statement of (6) holds, whatever the scheduler does (C16_mline_exactly_once).
-   NOT proved: frames that are DELAYED on the line (several frames queued between the stations, answers arriving after the
-   acknowledgement timeout), the broadcast service of the unbalanced master, and the composition with the
+   (8) FRAMES IN TRANSIT on the balanced line (Link/LinkLineD.v): a frame written by A stays on the line until a later event
+   delivers or loses it, and so does B's answer; runs of A at any clock values, deliveries, losses and application calls
+   interleave in any order.  Under the timing assumption of the procedure (no transmission while a frame or its answer is still
+   in transit, i.e. the acknowledgement timeout exceeds the round trip; the flag `dtim` records a breach) the exactly-once
+   statement of (5) holds for every history (C16_dline_exactly_once), and in the quiescent state the line is empty and both
+   frame count bits agree (C16_dline_quiescent).  Without the assumption the statement is false for the procedure itself
+   (C16_dline_needs_timing: the acknowledgement of a premature repetition is taken for the confirmation of the next message).
+   NOT proved: more than one frame per direction in transit and answers arriving after the acknowledgement timeout (excluded by
+   the timing assumption), delayed frames on the unbalanced line, the broadcast service of the unbalanced master, and the composition with the
    ring of the class queues (cs101_queue.c; the slave application here is the FIFO stub of the harness).  Those stay with the
    differential execution of the composed model against the real CS101_Master / CS101_Slave objects on the simulated
    line, and with the exactly-once oracle, on every run. *)
 From Coq Require Import ZArith List Bool.
-From L60870 Require Import Link.Abp Link.AbpProofs Link.Cs101Queue Link.Cs101QueueProofs Link.Ft12 Link.LinkSec Link.LinkPrim Link.Ft12Proofs Link.LinkProofs Link.LinkOnce Link.LinkLine Link.LinkLineU Link.LinkLineM.
+From L60870 Require Import Link.Abp Link.AbpProofs Link.Cs101Queue Link.Cs101QueueProofs Link.Ft12 Link.LinkSec Link.LinkPrim Link.Ft12Proofs Link.LinkProofs Link.LinkOnce Link.LinkLine Link.LinkLineU Link.LinkLineM Link.LinkLineD.
 Import ListNotations.
 Local Open Scope Z_scope.
 
@@ -202,6 +209,41 @@ Example C16_mline_example :
    (5, false, [[45; 1; 6; 0; 1; 0; 7]], [[30; 1; 3; 0; 1; 0; 2]; [9; 1; 3; 0; 1; 0; 3]])] /\
   map (fun p => (uT p, uR p)) (mpairs st') = map (fun p => (uD p, uU p)) (mpairs st').
 Proof. exact mline_example. Qed.
+
+(* the balanced line with frames in transit (Link/LinkLineD.v).  JD is J of the synchronous line plus the place of the frame while
+   A waits: the outstanding frame under way to B, nothing on the line (lost), or B's acknowledgement under way and B's bit toggled.
+   dtim st' = false is the timing assumption: A never transmitted while something was still in transit. *)
+Theorem C16_dline_exactly_once : forall v c addrB dirA dirB, 0 <= alen c <= 2 -> fb v = true -> fg v = true -> addr_in_range (alen c) addrB ->
+  forall evs st, JD c addrB dirA dirB st -> dfail st = false -> dtim st = false ->
+  let st' := fold_left (dstep v c addrB dirA dirB) evs st in dfail st' = false -> dtim st' = false ->
+  dD st' = dT st' \/ (dT st' = dD st' ++ [pb_last (dp st')] /\ pb_ps (dp st') = PLL_SEND_CONFIRM).
+Proof. exact dline_exactly_once. Qed.
+
+Theorem C16_dline_invariant : forall v c addrB dirA dirB, 0 <= alen c <= 2 -> fb v = true -> fg v = true -> addr_in_range (alen c) addrB ->
+  forall evs st, JD c addrB dirA dirB st -> dfail st = false -> dtim st = false ->
+  dfail (fold_left (dstep v c addrB dirA dirB) evs st) = false -> dtim (fold_left (dstep v c addrB dirA dirB) evs st) = false ->
+  JD c addrB dirA dirB (fold_left (dstep v c addrB dirA dirB) evs st).
+Proof. exact dline_invariant. Qed.
+
+Theorem C16_dline_quiescent : forall v c addrB dirA dirB, 0 <= alen c <= 2 -> fb v = true -> fg v = true -> addr_in_range (alen c) addrB ->
+  forall evs st, JD c addrB dirA dirB st -> dfail st = false -> dtim st = false ->
+  let st' := fold_left (dstep v c addrB dirA dirB) evs st in dfail st' = false -> dtim st' = false -> pb_ps (dp st') = PLL_AVAILABLE ->
+  dD st' = dT st' /\ dAB st' = None /\ dBA st' = None /\ pb_nfcb (dp st') = sb_efcb (dsb st').
+Proof. exact dline_quiescent. Qed.
+
+Example C16_dline_hypotheses : JD ex_c 2 true false exd_st.
+Proof. exact dline_hypotheses. Qed.
+
+Example C16_dline_example :
+  let st' := fold_left (dstep ex_v ex_c 2 true false) exd_evs exd_st in
+  dfail st' = false /\ dtim st' = false /\ dD st' = [exd_m1; exd_m2] /\ dT st' = dD st' /\ dq st' = [] /\ dAB st' = None /\ dBA st' = None.
+Proof. exact dline_example. Qed.
+
+Theorem C16_dline_needs_timing :
+  let st' := fold_left (dstep ex_v ex_c 2 true false)
+               [DEnq exd_m1; DEnq exd_m2; DRun 10; DToB; DRun 250; DToA 260; DToB; DRun 270; DLoseAB; DToA 280] exd_st in
+  dfail st' = false /\ dtim st' = true /\ pb_ps (dp st') = PLL_AVAILABLE /\ dT st' = [exd_m1; exd_m2] /\ dD st' = [exd_m1].
+Proof. exact dline_needs_timing. Qed.
 
 Example C16_example :
   delivered nat (abp_run nat (abp_init nat [1; 2; 3]%nat)
